@@ -191,6 +191,12 @@ var payloadTexts = []string{
 	`{"lang":"curl","source":"curl https://api.example.com/users","n":100,"f":false}`,
 	`[]`,
 	`{}`,
+	deepPayload(45),
+}
+
+// deepPayload: data nested deeper than any schema of the document
+func deepPayload(n int) string {
+	return strings.Repeat(`{"next":`, n) + `null` + strings.Repeat(`}`, n)
 }
 
 func payload(i int) any {
@@ -916,7 +922,42 @@ func stateProbe(c *caseT) (ok bool, ran bool) {
 	cancel()
 	_, _, _ = a2.VerifOpenAPIGenerateSpec(cctx)
 	b4, e4, err := a2.VerifOpenAPIGenerateSpec(ctx)
-	return err == nil && bytes.Equal(b4, wantOn.JSON) && e4 == fmt.Sprintf(`"%x"`, sha256.Sum256(b4)), true
+	if err != nil || !bytes.Equal(b4, wantOn.JSON) || e4 != fmt.Sprintf(`"%x"`, sha256.Sum256(b4)) {
+		return false, true
+	}
+	// history: what GenerateSpec returns is a function of the operations registered so far, not of what an
+	// earlier generation returned — a good document first, then a registration that makes the set ungeneratable
+	// (two operations with one explicit id): the answer is the error a fresh state gives, not the old document
+	dup := func(p string) openapi.Operation {
+		return openapi.GET(p, openapi.WithSummary("dup"), openapi.WithOperationID("zzDupId"), openapi.WithResponse(200, gateT{N: "d"}))
+	}
+	a3, err := app.New(app.WithServiceName("c07"), app.WithOpenAPI(c.apiOptions(false)...))
+	if err != nil {
+		return true, true
+	}
+	e3ops, _ := build()
+	first := append(e3ops, dup("/zz-dup-a"))
+	for _, op := range first {
+		a3.VerifOpenAPIAddOperation(op)
+	}
+	agree := func(n int) bool {
+		f1, _ := build()
+		ops := append(f1, dup("/zz-dup-a"))
+		if n == 2 {
+			ops = append(ops, dup("/zz-dup-b"))
+		}
+		w, werr := openapi.MustNew(c.apiOptions(false)...).Generate(context.Background(), ops...)
+		b, e, gerr := a3.VerifOpenAPIGenerateSpec(ctx)
+		if werr != nil || gerr != nil {
+			return werr != nil && gerr != nil
+		}
+		return bytes.Equal(b, w.JSON) && e == fmt.Sprintf(`"%x"`, sha256.Sum256(b))
+	}
+	if !agree(1) {
+		return false, true
+	}
+	a3.VerifOpenAPIAddOperation(dup("/zz-dup-b"))
+	return agree(2), true
 }
 
 // appEligible: standard-method constructors, plain router paths, no two routes with the same
@@ -1050,6 +1091,12 @@ func dataIntact(c *caseT, js []byte) bool {
 			return false
 		}
 		for k, p := range last(o.Ext) {
+			if !opExtKept(k, c.V31) {
+				if _, there := op[k]; there {
+					return false // a key the projection must filter out
+				}
+				continue
+			}
 			if !same(op[k], p, false) {
 				return false
 			}
@@ -1662,7 +1709,7 @@ func execDigest(c *caseT) string {
 // ---------------------------------------------------------------------------------------------
 // generators
 
-var words = []string{"users", "orders", "items", "boxes", "cities", "classes", "matches", "v1", "api", "status", "s", "ies"}
+var words = []string{"users", "orders", "items", "boxes", "cities", "classes", "matches", "v1", "api", "status", "s", "ies", "api-keys", "v10", "apis"}
 var params = []string{"id", "id", "name", "slug", "orderId", "user.id", "x-y", "q", "filepath", "path"}
 var badPaths = []string{"", "users", "/a/:", "/a/:id/:id", "/a/{id", "/a/:i d", "/a/id}", "/a/{}", "/a/{id}/:id", "/x/:a/{a}", "/a/{b/c}"}
 var opIDs = []string{"getUser", "listAll", "op1", "getUsers", "createUser"}
@@ -1851,6 +1898,17 @@ func genExts(r *hx.Rand) []extT {
 	return out
 }
 
+// extension keys on operations are not checked by an option: the projection filters them — a key that does not
+// start with a lower-case "x-" is dropped, and so is a reserved prefix (x-oai-, x-oas-) for a 3.1 target
+var droppedOpExtKeys = []string{"X-Internal", "X-Rate-Limit", "internal", "x_under", "x-oai-meta", "x-oas-draft", "X-OAI-up"}
+
+func opExtKept(k string, v31 bool) bool {
+	if !strings.HasPrefix(k, "x-") {
+		return false
+	}
+	return !(v31 && (strings.HasPrefix(k, "x-oai-") || strings.HasPrefix(k, "x-oas-")))
+}
+
 func genOp(r *hx.Rand) opT {
 	var o opT
 	switch r.Intn(20) {
@@ -1914,6 +1972,9 @@ func genOp(r *hx.Rand) opT {
 	}
 	if r.Chance(1, 16) {
 		o.Ext = genExts(r)
+		if r.Chance(1, 3) {
+			o.Ext = append(o.Ext, extT{K: hx.Pick(r, droppedOpExtKeys), P: r.Intn(len(payloadTexts))})
+		}
 	}
 	if r.Chance(1, 4) {
 		for k, m := 0, r.Range(1, 4); k < m; k++ {
